@@ -47,7 +47,87 @@ def _opt(tok):
     return None if tok == "nil" else unhex(tok)
 
 
+
+def _same_cond(a, b):
+    if len(a["mac"]) > 0 and len(b["mac"]) > 0 and a["mac"] == b["mac"]:
+        return True
+    if a["dests"] and b["dests"] and len(a["dests"]) == len(b["dests"]) and all(_ip_eq(x, y) for x, y in zip(a["dests"], b["dests"])):
+        return True
+    if a["pfx"] is not None and b["pfx"] is not None:
+        na, nb = _norm(a["pfx"][0]), _norm(b["pfx"][0])
+        ma = a["pfx"][1][12:] if len(a["pfx"][1]) == 16 and na and na[0] == 4 else a["pfx"][1]
+        mb = b["pfx"][1][12:] if len(b["pfx"][1]) == 16 and nb and nb[0] == 4 else b["pfx"][1]
+        if na == nb and ma == mb:
+            return True
+    ca = a["pfx"] is not None or len(a["mac"]) > 0 or len(a["dests"]) > 0
+    cb = b["pfx"] is not None or len(b["mac"]) > 0 or len(b["dests"]) > 0
+    return (not ca) and (not cb)
+
+
+def _store_of(tokens):
+    """the stored list for configured entry tokens (raw;id;pfx;mac;dests;final) under Set's replace-same-condition rule"""
+    exp = []
+    for tok in tokens:
+        g = tok.split(";")
+        if len(g) != 6:
+            return None
+        e = _entry(";".join(g[1:5]))
+        stored = dict(e, dests=[] if g[5] == "-" else [unhex(x) for x in g[5].split("+")])
+        for k, old in enumerate(exp):
+            if _same_cond(e, old["parsed"]):
+                exp[k] = dict(parsed=stored, id=e["id"], cmp=e)
+                break
+        else:
+            exp.append(dict(parsed=stored, id=e["id"], cmp=e))
+    return [x["parsed"] for x in exp]
+
+
+def _want_profile(entries, src, dst, mac):
+    last_default = "-"
+    for e in entries:
+        cond = e["pfx"] is not None or len(e["mac"]) > 0 or len(e["dests"]) > 0
+        if not cond:
+            last_default = e["id"]
+            continue
+        ok = True
+        if e["pfx"] is not None:
+            ok = ok and src is not None and _in_prefix(e["pfx"], src)
+        if len(e["mac"]) > 0:
+            ok = ok and len(mac) > 0 and mac == e["mac"]
+        if len(e["dests"]) > 0:
+            ok = ok and dst is not None and any(_ip_eq(x, dst) for x in e["dests"])
+        if ok:
+            return e["id"]
+    return last_default
+
+
+def oracle_pseq(case, impl):
+    """C11 on one resolver answering a sequence of clients: every query goes to the URL path of, and is cached under,
+    the profile of ITS OWN tuple (first matching conditional entry, else last unconditional)."""
+    if not impl.startswith("seq="):
+        return "profile code / harness did not produce a result: " + impl[:80]
+    f = case.split(" ")
+    entries = _store_of(f[2:])
+    if entries is None:
+        return None
+    tuples = f[1].split(",")
+    outs = [] if impl == "seq=-" else impl[4:].split(",")
+    if len(outs) != len(tuples):
+        return "%d queries, %d results" % (len(tuples), len(outs))
+    for i, (t, o) in enumerate(zip(tuples, outs)):
+        a, b, m = t.split("/")
+        want = _want_profile(entries, _opt(a), _opt(b), unhex(m))
+        idb = b"" if want == "-" else unhex(want)
+        ctx, path, prof = [unhex(x) for x in o.split(":")]
+        if prof != idb or path != b"/" + idb or ctx != PREFIX + idb:
+            return ("query %d of the sequence, client (src=%s dst=%s mac=%s), was resolved under profile %r (path %r, cache context %r); "
+                    "its first matching conditional entry / last unconditional entry is %r" % (i + 1, a, b, m, prof, path, ctx, idb))
+    return None
+
+
 def oracle_prof(case, impl):
+    if case.startswith("pseq "):
+        return oracle_pseq(case, impl)
     if impl.startswith("PANIC") or impl.startswith("PARSE-MISMATCH") or impl.startswith("set-error") or impl == "bad-case":
         return "profile code / harness did not produce a result: " + impl[:80]
     f = case.split(" ")
